@@ -253,10 +253,15 @@ def evaluate(spec, route, probes=None, twin_verdicts=None, want=None):
     r.stages.append("write")
     if need("source-mutated"):
         r.monitors.append("source-unchanged")
-        d = F.diff(F.fp(S, ident=False), fp0)
-        if d:
+        # judged on the serialisable attributes only (a private cache on the
+        # schema object would not contradict the statement)
+        dm = [x for x in all_diffs(proj(S0), proj(S)) if not x[3]]
+        if dm:
             r.fail("source-mutated",
-                   {"first_fingerprint_difference": d,
+                   {"serialisable_attribute_changed": ".".join(
+                       map(str, dm[0][0])),
+                    "first_fingerprint_difference": F.diff(
+                        F.fp(S, ident=False), fp0),
                     "check_statistics_keys_added": _added_stat_keys(S, S0)})
     if text is None:
         return r
